@@ -66,7 +66,7 @@ func (c *Ctx) VerifyLemma(name string) (*FuncReport, error) {
 		}
 		// the callee's precondition must hold for the instantiation to be meaningful
 		for i, r := range ct.Requires {
-			t, err := c.evalBool(sub, r.Expr)
+			t, err := c.evalGoal(sub, r.Expr)
 			if err != nil {
 				return nil, fmt.Errorf("CONTRACT-ERROR %s: %v", r.Line, err)
 			}
@@ -93,7 +93,7 @@ func (c *Ctx) VerifyLemma(name string) (*FuncReport, error) {
 	}
 	c.emit(st, nil, nil, "cover", "lemma-hypotheses", True, "lemma hypotheses satisfiable", true)
 	for i, e := range lm.Ensures {
-		t, err := c.evalBool(env, e.Expr)
+		t, err := c.evalGoal(env, e.Expr)
 		if err != nil {
 			return nil, fmt.Errorf("CONTRACT-ERROR %s: %v", e.Line, err)
 		}
